@@ -6,7 +6,11 @@ list 1..2 ids instead of 300, `orphaned_threshold` 2 instead of 24576) so that e
 of `highest_request_id`, reuse and orphan handling all happen within 3-5 requests.  The server
 holds every application request; an answer is a rows result with one int, the tag found in the
 query text of the request *that arrived on that stream* - so whoever receives it can tell whether
-it is the answer to its own request.
+it is the answer to its own request.  With `prepared` every request is an EXECUTE of its own
+prepared statement (the statement id names the tag); the server may answer it UNPREPARED, and
+answers the PREPARE the driver then sends with the id of the statement text that arrived on that
+stream.  With `max_unwritable` the socket of a pooled connection may stop being writable
+(`Connection._socket_writable`, cleared by the libev reactor on EAGAIN): send_msg then refuses.
 
 The oracle observes (a) the wire: what the server received, on which connection and stream, and
 what is still unanswered; (b) the application: what each future's callbacks were called with;
@@ -149,7 +153,9 @@ def timer_owner(t):
 
 
 class W9(ReqWorld):
-    """params: protocol_version, max_in_flight, orphaned_threshold, initial_ids, timeout, n_req, max_faults, sched"""
+    """params: protocol_version, max_in_flight, orphaned_threshold, initial_ids, timeout, n_req, max_faults, sched,
+    prepared (requests are EXECUTEs of prepared statements), max_unprepared (UNPREPARED answers per history),
+    max_unwritable (socket-not-writable faults per history), prologue (events applied before the explorer takes over)"""
 
     def __init__(self, params):
         p = dict(params)
